@@ -218,6 +218,13 @@ func (cli *Client) EnrollContext(c net.Conn, ctx any) (Conn, error) {
 	if e != nil {
 		return nil, e
 	}
+	// The duplicated descriptor is ours, don't leak it if we fail before handing it to the event-loop.
+	enrolled := false
+	defer func() {
+		if !enrolled {
+			_ = unix.Close(dupFD)
+		}
+	}()
 
 	if cli.opts.SocketSendBuffer > 0 {
 		if err = socket.SetSendBuffer(dupFD, cli.opts.SocketSendBuffer); err != nil {
@@ -281,6 +288,7 @@ func (cli *Client) EnrollContext(c net.Conn, ctx any) (Conn, error) {
 	ccb := &connWithCallback{c: gc, cb: func() {
 		close(connOpened)
 	}}
+	enrolled = true // from here on the event-loop owns the descriptor
 	err = el.poller.Trigger(queue.HighPriority, el.register, ccb)
 	if err != nil {
 		gc.Close() //nolint:errcheck
